@@ -460,10 +460,21 @@ pub fn run(tier: Tier) -> Report {
     rep
 }
 
+#[derive(Clone, Debug, Default, PartialEq, Eq, Hash)]
+struct Mid {
+    stats: Option<Vec<usize>>,
+    lookup: Option<Vec<(u64, u8)>>,
+    fetched: Option<Vec<(u64, Vec<u64>)>>,
+    dup_add_ok: Option<bool>,
+    cleared: bool,
+}
+
 /// Engine B: "noblock; other op; get" under every schedule: what is observed must be explained by the
 /// merge taking effect at one point between the call and get().
 fn noblock_schedules(rep: &Report, tier: Tier) {
-    let cfgs: Vec<(usize, u64, u8)> = vec![(1, 1, 0), (2, 1, 0), (2, 1, 1), (2, 2, 0), (2, 1, 2)];
+    // (shards, destination id, operation while the merge is in flight): 0 shard_stats, 1 lookup, 2 fetch of the
+    // destination, 3 add_track with the destination's id (a duplicate), 4 clear
+    let cfgs: Vec<(usize, u64, u8)> = vec![(1, 1, 0), (2, 1, 0), (2, 1, 1), (2, 2, 0), (2, 1, 2), (1, 1, 3), (2, 1, 3), (1, 1, 4), (2, 1, 4), (1, 1, 2)];
     let mut total = 0u64;
     let cfgs: Vec<(usize, u64, u8, bool)> = cfgs.iter().map(|c| (c.0, c.1, c.2, false)).chain(cfgs.iter().map(|c| (c.0, c.1, c.2, true))).collect();
     for (shards, dest, other, fine) in cfgs {
@@ -482,21 +493,30 @@ fn noblock_schedules(rep: &Report, tier: Tier) {
                 let (ext, mext) = external_track(9);
                 let fut = store.merge_external_noblock(dest, ext, None, true).unwrap();
                 // another operation while the merge is in flight
-                let seen_mid: String = match other {
-                    0 => format!("{:?}", store.shard_stats()),
+                let mut mid = Mid::default();
+                match other {
+                    0 => mid.stats = Some(store.shard_stats()),
                     1 => {
                         let mut l: Vec<(u64, u8)> = store.lookup(HLookup::MergedFrom(9)).iter().map(|(i, s)| (*i, status_code(s))).collect();
                         l.sort();
-                        format!("{l:?}")
+                        mid.lookup = Some(l);
+                    }
+                    2 => {
+                        let f = store.fetch_tracks(&[dest]);
+                        mid.fetched = Some(f.iter().map(|t| (t.get_track_id(), t.get_merge_history().clone())).collect());
+                    }
+                    3 => {
+                        let (dup, _) = external_track(dest);
+                        mid.dup_add_ok = Some(store.add_track(dup).is_ok());
                     }
                     _ => {
-                        let f = store.fetch_tracks(&[dest]);
-                        format!("fetched {:?}", f.iter().map(|t| t.get_merge_history().clone()).collect::<Vec<_>>())
+                        store.clear();
+                        mid.cleared = true;
                     }
-                };
+                }
                 let r = fut.get();
                 let after = dump_store(&store, shards);
-                (seen_mid, r.is_ok(), after, mext, model)
+                (mid, r.is_ok(), after, mext, model)
             },
             |x| match &x.outcome {
                 sched::Outcome::Done((mid, ok, after, mext, model)) => {
@@ -505,22 +525,56 @@ fn noblock_schedules(rep: &Report, tier: Tier) {
                     let list: Vec<u64> = mext.obs.keys().cloned().collect();
                     let applied_possible = m_applied.get_mut(&dest).map(|d| m_merge(d, mext, &list, true, &mut MCtx::new(FaultPlan::default())).is_ok()).unwrap_or(false);
                     let tracks_after: Vec<TrackDump> = after.iter().flat_map(|s| s.1.iter().cloned()).collect();
-                    let fetched = other == 2;
                     let initially_present = model.contains_key(&dest);
+                    let fetched = mid.fetched.as_ref().map_or(false, |f| !f.is_empty());
+                    let removed = fetched || mid.cleared;
                     let explained = if *ok {
-                        // the merge happened: the destination existed; if it was fetched afterwards it is gone
-                        initially_present && applied_possible && (fetched || tracks_after.iter().any(|t| t.id == dest && Some(t) == m_applied.get(&dest)))
+                        // the merge happened: the destination existed; if it was fetched / cleared afterwards it is gone
+                        initially_present && applied_possible && (removed || tracks_after.iter().any(|t| t.id == dest && Some(t) == m_applied.get(&dest)))
                     } else {
-                        // rejected: the destination was absent when the worker ran (never there, or fetched first)
-                        (!initially_present || fetched) && !tracks_after.iter().any(|t| t.id == dest)
+                        // rejected: the destination was absent when the worker ran (never there, or removed first)
+                        (!initially_present || removed) && !tracks_after.iter().any(|t| t.id == dest)
                     };
-                    *outcomes.lock().unwrap().entry(format!("mid={mid} ok={ok}")).or_insert(0) += 1;
+                    *outcomes.lock().unwrap().entry(format!("mid={mid:?} ok={ok}")).or_insert(0) += 1;
+                    let viol = |key: &str, what: String| {
+                        rep.violation(Violation { key: key.into(), what, replay: json!({"engine":"B","shards":shards,"dest":dest,"other_op":other,"granularity":if fine { "fine" } else { "macro" },"schedule":x.schedule_json()}) })
+                    };
                     if !explained {
-                        rep.violation(Violation {
-                            key: if *ok { "merge_noblock/ok-unexplained".into() } else { "merge_noblock/err-unexplained".into() },
-                            what: format!("get() ok={ok}, mid observation {mid}, store after {tracks_after:?}"),
-                            replay: json!({"engine":"B","shards":shards,"dest":dest,"other_op":other,"granularity":if fine { "fine" } else { "macro" },"schedule":x.schedule_json()}),
-                        });
+                        viol(if *ok { "merge_noblock/ok-unexplained" } else { "merge_noblock/err-unexplained" }, format!("get() ok={ok}, mid observation {mid:?}, store after {tracks_after:?}"));
+                    }
+                    // what the operation in the middle saw: the store is a map from id to track at every moment
+                    // (a merge changes the destination only; it never makes a stored track disappear for a while)
+                    if let Some(st) = &mid.stats {
+                        let exp: Vec<usize> = (0..shards).map(|k| model.keys().filter(|id| **id as usize % shards == k).count()).collect();
+                        if *st != exp {
+                            viol("merge_noblock/shard-stats-while-in-flight", format!("shard_stats() = {st:?} while a merge into track {dest} was in flight; the store holds {exp:?}"));
+                        }
+                    }
+                    if let Some(f) = &mid.fetched {
+                        if initially_present && f.is_empty() {
+                            viol("merge_noblock/fetch-misses-destination-while-in-flight", format!("fetch_tracks([{dest}]) returned nothing although track {dest} was added and never fetched or cleared (merge result ok={ok})"));
+                        }
+                        if let Some((_, h)) = f.first() {
+                            if h.contains(&9) != *ok {
+                                viol("merge_noblock/fetched-track-vs-merge-result", format!("the fetched destination has merge history {h:?} but get() ok={ok}"));
+                            }
+                        }
+                        if !initially_present && !f.is_empty() {
+                            viol("merge_noblock/fetch-returned-unknown-track", format!("{f:?}"));
+                        }
+                    }
+                    if let Some(dup_ok) = mid.dup_add_ok {
+                        if initially_present && dup_ok {
+                            viol("merge_noblock/duplicate-accepted-while-in-flight", format!("add_track with the id of stored track {dest} succeeded while a merge into it was in flight"));
+                        }
+                    }
+                    if mid.cleared && !tracks_after.is_empty() {
+                        viol("merge_noblock/store-not-empty-after-clear", format!("clear() was called while the merge was in flight; after get() the store holds {tracks_after:?}"));
+                    }
+                    if let Some(l) = &mid.lookup {
+                        if l.iter().any(|(i, _)| *i != dest) || (!initially_present && !l.is_empty()) {
+                            viol("merge_noblock/lookup-while-in-flight", format!("lookup(merged from 9) = {l:?}"));
+                        }
                     }
                 }
                 sched::Outcome::Machinery(m) => machinery_error(m),
